@@ -1045,6 +1045,9 @@ func checkIndex(c idxCase) evid.Outcome {
 		return evid.Outcome{Skip: true}
 	}
 	if p != nil {
+		if c.Accessor == "GetRX1DataRateIndex" {
+			return evid.Fail("%s: GetRX1DataRateIndex(0, %d) panics (%v); an invalid RX1 data-rate offset must be reported as an error", c.Band, x, p)
+		}
 		return evid.Fail("%s: %s(%d) panics (%v); the table has %d entries, an invalid index must be reported as an error", c.Band, c.Accessor, x, p, n)
 	}
 	valid := x >= 0 && x < n
